@@ -1,5 +1,6 @@
 import LWV.Lemmas.RtSafe
 import LWV.Props.C09
+import LWV.Props.C10
 /-
 C09 (full) — the model of the radiotap parser (`Model.parseRadiotapInfo`, built on the model of the
 vendored iterator `rtInit` / `rtNext`) decodes radiotap headers exactly as the declarative
@@ -8,6 +9,9 @@ specification (`Spec.rtFields` / `Spec.rtValues`) says: for EVERY byte string th
 past `it_len`) the parser returns 0 and the values it reports are the Spec's (`C09_decode_full`).
 Corollaries: the single-word case (`C09_decode_single`) and the statement left open in
 `Props/C09.lean` (`C09_decode`).
+Second part (C10): decoding the header generated for a description of carried fields gives back the
+supplied values (`C10_roundtrip`, `C10_roundtrip_fields`, and the statement left open in
+`Props/C10.lean`: `C10_roundtrip_statement`).
 -/
 set_option linter.unusedSimpArgs false
 namespace LWV.Props.C09Full
@@ -63,6 +67,8 @@ theorem le64At_u64 {what : String} {bs : Bytes} {i : Nat} (h : i + 8 ≤ bs.leng
     le64At what bs i = .ok (Spec.u64 bs i) := by
   rw [le64At_eq h, leNat_take8 bs i h]
 
+
+/-! ### the parser's `switch` against `Spec.valueStep` -/
 
 theorem channel_lt (f : Nat) : (Spec.channelOf f).2 < 256 := by
   unfold Spec.channelOf
@@ -179,6 +185,8 @@ theorem rtField_sim {bs : Bytes} {it : RtIt} (acc : RtInfo × Bool)
   · have hb : a + 12 ≤ bs.length := by rcases hok with h | h | ⟨h1, h2⟩ <;> omega
     simp (disch := omega) only [rd_eq, le16At_u16, le64At_u64, Outcome.bind_ok]
     exact ⟨_, rfl, hlen, rfl⟩
+
+/-! ### the iterator, one trip of `rtNext` at a time (bits 0..28) -/
 
 theorem align_eq (off a : Nat) (ha : 0 < a) :
     (if off % a ≠ 0 then off + (a - off % a) else off) = Spec.alignUp off a := by
@@ -964,5 +972,530 @@ example : Spec.rtFields [0, 0, 14, 0, 0x26, 0, 0x0c, 0, 0x12, 0x0c, 0xd0, 1, 2, 
 example : Spec.rtFields [0, 0, 12, 0, 0x0a, 0, 0, 0, 0x12, 0, 0xa8, 0x09] = some (12, [⟨1, 8⟩]) ∧
     Spec.u32 [0, 0, 12, 0, 0x0a, 0, 0, 0, 0x12, 0, 0xa8, 0x09] 4 < 2 ^ 29 := by
   decide +kernel
+
+/-! non-vacuity for general headers: FLAGS + a vendor namespace (skip length 2), a namespace reset in a
+second word, RATE in a third; and the header on which the unfixed iterator decoded FLAGS from a stale
+offset after the undefined field 18 -/
+example : Spec.rtFields [0, 0, 27, 0, 0x02, 0, 0, 0xc0, 0, 0, 0, 0xa0, 4, 0, 0, 0,
+      0x12, 0, 0xaa, 0xbb, 0xcc, 1, 2, 0, 0xee, 0xee, 0x0c] = some (27, [⟨1, 16⟩, ⟨2, 26⟩]) ∧
+    parseRadiotapInfo [0, 0, 27, 0, 0x02, 0, 0, 0xc0, 0, 0, 0, 0xa0, 4, 0, 0, 0,
+      0x12, 0, 0xaa, 0xbb, 0xcc, 1, 2, 0, 0xee, 0xee, 0x0c] = .ok { length := 27, flags := 0x12, rateRaw := 0x0c } := by
+  decide +kernel
+
+example : Spec.rtFields [0, 0, 27, 0, 0, 0, 0, 0xc0, 0, 0, 0, 0xa0, 0, 0, 4, 0xa0, 2, 0, 0, 0,
+      1, 2, 3, 4, 0, 0, 0x55] = some (27, []) ∧
+    parseRadiotapInfo [0, 0, 27, 0, 0, 0, 0, 0xc0, 0, 0, 0, 0xa0, 0, 0, 4, 0xa0, 2, 0, 0, 0,
+      1, 2, 3, 4, 0, 0, 0x55] = .ok { length := 27 } := by
+  decide +kernel
+
+/-! ### T2: decoding what the generator / the Spec encoder produced -/
+
+/-- the Spec encoder's step for bit `b` (fields the table does not define add nothing) -/
+def encStep (d : Spec.RtDesc) (acc : Bytes) (b : Nat) : Bytes :=
+  if b < Gen.rtapNBits ∧ rtAlign b ≠ 0 then specStep d acc (b, rtAlign b, rtSize b) else acc
+
+/-- the Spec encoder's body, bit by bit -/
+def encBits (d : Spec.RtDesc) : Nat → Nat → Bytes → Bytes
+  | 0, _, acc => acc
+  | n + 1, b, acc => encBits d n (b + 1) (encStep d acc b)
+
+theorem rtAlign_vals : rtAlign 0 = 8 ∧ rtAlign 1 = 1 ∧ rtAlign 2 = 1 ∧ rtAlign 3 = 2 ∧ rtAlign 4 = 2 ∧ rtAlign 5 = 1 ∧ rtAlign 6 = 1 ∧ rtAlign 7 = 2 ∧ rtAlign 8 = 2 ∧ rtAlign 9 = 2 ∧ rtAlign 10 = 1 ∧ rtAlign 11 = 1 ∧ rtAlign 12 = 1 ∧ rtAlign 13 = 1 ∧ rtAlign 14 = 2 ∧ rtAlign 15 = 2 ∧ rtAlign 16 = 1 ∧ rtAlign 17 = 1 ∧ rtAlign 18 = 0 ∧ rtAlign 19 = 1 ∧ rtAlign 20 = 4 ∧ rtAlign 21 = 2 ∧ rtAlign 22 = 8 := by
+  decide +kernel
+
+theorem rtSize_vals : rtSize 0 = 8 ∧ rtSize 1 = 1 ∧ rtSize 2 = 1 ∧ rtSize 3 = 4 ∧ rtSize 4 = 2 ∧ rtSize 5 = 1 ∧ rtSize 6 = 1 ∧ rtSize 7 = 2 ∧ rtSize 8 = 2 ∧ rtSize 9 = 2 ∧ rtSize 10 = 1 ∧ rtSize 11 = 1 ∧ rtSize 12 = 1 ∧ rtSize 13 = 1 ∧ rtSize 14 = 2 ∧ rtSize 15 = 2 ∧ rtSize 16 = 1 ∧ rtSize 17 = 1 ∧ rtSize 18 = 0 ∧ rtSize 19 = 3 ∧ rtSize 20 = 8 ∧ rtSize 21 = 12 ∧ rtSize 22 = 12 := by
+  decide +kernel
+
+theorem encBits_table (d : Spec.RtDesc) (acc : Bytes) :
+    Spec.rtTable.foldl (specStep d) acc = encBits d 29 0 acc := by
+  obtain ⟨a0, a1, a2, a3, a4, a5, a6, a7, a8, a9, a10, a11, a12, a13, a14, a15, a16, a17, a18, a19, a20, a21, a22⟩ := rtAlign_vals
+  obtain ⟨z0, z1, z2, z3, z4, z5, z6, z7, z8, z9, z10, z11, z12, z13, z14, z15, z16, z17, z18, z19, z20, z21, z22⟩ := rtSize_vals
+  have hN : Gen.rtapNBits = 23 := by decide
+  simp only [encBits, Nat.reduceAdd, Nat.zero_add, encStep, hN, a0, a1, a2, a3, a4, a5, a6, a7, a8, a9, a10, a11, a12, a13, a14, a15, a16, a17, a18, a19, a20, a21, a22, z0, z1, z2, z3, z4, z5, z6, z7, z8, z9, z10, z11, z12, z13, z14, z15, z16, z17, z18, z19, z20, z21, z22]
+  simp [Spec.rtTable]
+
+theorem encStep_prefix (d : Spec.RtDesc) (acc : Bytes) (b : Nat) : acc <+: encStep d acc b := by
+  unfold encStep specStep
+  split
+  · split
+    · simp only [List.append_assoc]; exact List.prefix_append _ _
+    · exact List.prefix_refl _
+  · exact List.prefix_refl _
+
+theorem encBits_prefix (d : Spec.RtDesc) : ∀ (n b : Nat) (acc : Bytes), acc <+: encBits d n b acc := by
+  intro n
+  induction n with
+  | zero => intro b acc; exact List.prefix_refl _
+  | succ n ih => intro b acc; exact List.IsPrefix.trans (encStep_prefix d acc b) (ih _ _)
+
+/-- reading inside a middle segment -/
+theorem u8_mid (A V X : Bytes) (j : Nat) (h : j < V.length) : Spec.u8 (A ++ V ++ X) (A.length + j) = Spec.u8 V j := by
+  unfold Spec.u8
+  congr 1
+  simp only [List.getD_eq_getElem?_getD]
+  rw [List.append_assoc, List.getElem?_append_right (by omega), Nat.add_sub_cancel_left,
+    List.getElem?_append_left h]
+
+theorem alignUp_ge (off a : Nat) (ha : 0 < a) : off ≤ Spec.alignUp off a := by
+  rw [← align_eq off a ha]
+  split <;> omega
+
+
+theorem u8_mid0 (A V X : Bytes) (h : 0 < V.length) : Spec.u8 (A ++ V ++ X) A.length = Spec.u8 V 0 := by
+  have := u8_mid A V X 0 h
+  rwa [Nat.add_zero] at this
+
+theorem u16_mid (A V X : Bytes) (j : Nat) (h : j + 1 < V.length) :
+    Spec.u16 (A ++ V ++ X) (A.length + j) = Spec.u16 V j := by
+  unfold Spec.u16
+  rw [u8_mid A V X j (by omega), Nat.add_assoc, u8_mid A V X (j + 1) h]
+
+theorem u16_mid0 (A V X : Bytes) (h : 1 < V.length) : Spec.u16 (A ++ V ++ X) A.length = Spec.u16 V 0 := by
+  have := u16_mid A V X 0 h
+  rwa [Nat.add_zero] at this
+
+theorem u64_mid0 (A V X : Bytes) (h : 7 < V.length) : Spec.u64 (A ++ V ++ X) A.length = Spec.u64 V 0 := by
+  unfold Spec.u64 Spec.u32
+  rw [u16_mid0 A V X (by omega), u16_mid A V X 2 (by omega), u16_mid A V X 4 (by omega), Nat.add_assoc,
+    u16_mid A V X (4 + 2) (by omega)]
+  simp only [Nat.zero_add, Nat.add_assoc]
+
+theorem rd1 (x : Nat) : Spec.u8 (leBytes 1 x) 0 = x % 256 := by
+  simp [leBytes, Spec.u8]
+
+theorem rd2 (x : Nat) : Spec.u16 (leBytes 2 x) 0 = x % 65536 := by
+  simp [leBytes, Spec.u16, Spec.u8]; omega
+
+theorem rdChan (a b : Nat) :
+    Spec.u16 (leBytes 2 a ++ leBytes 2 b) 0 = a % 65536 ∧ Spec.u16 (leBytes 2 a ++ leBytes 2 b) 2 = b % 65536 := by
+  simp [leBytes, Spec.u16, Spec.u8]; omega
+
+theorem rdMcs (a b c : Nat) :
+    Spec.u8 (leBytes 1 a ++ leBytes 1 b ++ leBytes 1 c) 0 = a % 256 ∧
+    Spec.u8 (leBytes 1 a ++ leBytes 1 b ++ leBytes 1 c) 1 = b % 256 ∧
+    Spec.u8 (leBytes 1 a ++ leBytes 1 b ++ leBytes 1 c) 2 = c % 256 := by
+  simp [leBytes, Spec.u8]
+
+theorem rdTs (t a u f : Nat) :
+    Spec.u64 (leBytes 8 t ++ leBytes 2 a ++ leBytes 1 u ++ leBytes 1 f) 0 = t % 2 ^ 64 ∧
+    Spec.u16 (leBytes 8 t ++ leBytes 2 a ++ leBytes 1 u ++ leBytes 1 f) 8 = a % 65536 ∧
+    Spec.u8 (leBytes 8 t ++ leBytes 2 a ++ leBytes 1 u ++ leBytes 1 f) 10 = u % 256 ∧
+    Spec.u8 (leBytes 8 t ++ leBytes 2 a ++ leBytes 1 u ++ leBytes 1 f) 11 = f % 256 := by
+  simp [leBytes, Spec.u64, Spec.u32, Spec.u16, Spec.u8]; omega
+
+
+/-- field `k` is selected and lies below bit `b` -/
+def onBit (g : RtGen) (b k : Nat) : Bool := g.present.testBit k && decide (k < b)
+
+/-- the values a decoder must report for the generated header, after the fields below bit `b` -/
+def expVals (g : RtGen) (len b : Nat) : Spec.RtValues × Bool :=
+  ({ length := len,
+     flags := if onBit g b 1 then g.flags % 256 else 0,
+     rateRaw := if onBit g b 2 then g.rateRaw % 256 else 0,
+     chanFreq := if onBit g b 3 then g.chanFreq % 65536 else 0,
+     chanFlags := if onBit g b 3 then g.chanFlags % 65536 else 0,
+     chanBand := if onBit g b 3 then (Spec.channelOf (g.chanFreq % 65536)).1 else 0,
+     chanCenter := if onBit g b 3 then
+         (if (Spec.channelOf (g.chanFreq % 65536)).1 = 0 then 0 else (Spec.channelOf (g.chanFreq % 65536)).2)
+       else 0,
+     signal := if onBit g b 5 then g.signal % 256 else 0,
+     antennas := [],
+     txPower := if onBit g b 10 then g.txPower % 256 else 0,
+     rxFlags := if onBit g b 14 then g.rxFlags % 65536 else 0,
+     txFlags := if onBit g b 15 then g.txFlags % 65536 else 0,
+     rtsRetries := if onBit g b 16 then g.rtsRetries % 256 else 0,
+     dataRetries := if onBit g b 17 then g.dataRetries % 256 else 0,
+     mcs := if onBit g b 19 then (g.mcsKnown % 256, g.mcsFlags % 256, g.mcsMcs % 256) else (0, 0, 0),
+     ts := if onBit g b 22 then (g.tsTimestamp % 2 ^ 64, g.tsAccuracy % 65536, g.tsUnit % 256, g.tsFlags % 256)
+           else (0, 0, 0, 0) },
+   onBit g b 5)
+
+theorem onBit_succ_absent (g : RtGen) (b k : Nat) (h : g.present.testBit b = false) :
+    onBit g (b + 1) k = onBit g b k := by
+  unfold onBit
+  by_cases hk : k = b
+  · subst hk; simp [h]
+  · have : (k < b + 1) = (k < b) := by apply propext; omega
+    simp only [this]
+
+theorem onBit_succ_present (g : RtGen) (b k : Nat) (h : g.present.testBit b = true) :
+    onBit g (b + 1) k = (decide (k = b) || onBit g b k) := by
+  unfold onBit
+  by_cases hk : k = b
+  · subst hk; simp [h]
+  · have : (k < b + 1) = (k < b) := by apply propext; omega
+    simp [this, hk]
+
+theorem expVals_absent (g : RtGen) (len b : Nat) (h : g.present.testBit b = false) :
+    expVals g len (b + 1) = expVals g len b := by
+  unfold expVals
+  simp only [onBit_succ_absent g b _ h]
+
+theorem expVals_zero (g : RtGen) (len : Nat) : expVals g len 0 = ({ length := len }, false) := by
+  unfold expVals onBit
+  simp
+
+
+theorem onBit_self (g : RtGen) (b : Nat) : onBit g b b = false := by
+  unfold onBit; simp
+
+theorem step_1 (g : RtGen) (len : Nat) (A X : Bytes) (hp : g.present.testBit 1 = true) :
+    Spec.valueStep (A ++ rtGenField g 1 ++ X) 16 (expVals g len 1) ⟨1, A.length⟩ = expVals g len (1 + 1) := by
+  unfold Spec.valueStep
+  simp only []
+  rw [u8_mid0 A _ X (by simp [rtGenField, leBytes_length])]
+  unfold expVals
+  simp only [onBit_succ_present g 1 _ hp]
+  simp [rtGenField, rd1, onBit_self]
+
+theorem step_2 (g : RtGen) (len : Nat) (A X : Bytes) (hp : g.present.testBit 2 = true) :
+    Spec.valueStep (A ++ rtGenField g 2 ++ X) 16 (expVals g len 2) ⟨2, A.length⟩ = expVals g len (2 + 1) := by
+  unfold Spec.valueStep
+  simp only []
+  rw [u8_mid0 A _ X (by simp [rtGenField, leBytes_length])]
+  unfold expVals
+  simp only [onBit_succ_present g 2 _ hp]
+  simp [rtGenField, rd1, onBit_self]
+
+theorem step_3 (g : RtGen) (len : Nat) (A X : Bytes) (hp : g.present.testBit 3 = true) :
+    Spec.valueStep (A ++ rtGenField g 3 ++ X) 16 (expVals g len 3) ⟨3, A.length⟩ = expVals g len (3 + 1) := by
+  unfold Spec.valueStep
+  simp only []
+  rw [u16_mid0 A _ X (by simp [rtGenField, leBytes_length]), u16_mid A _ X 2 (by simp [rtGenField, leBytes_length])]
+  unfold expVals
+  simp only [onBit_succ_present g 3 _ hp]
+  simp [rtGenField, rdChan, onBit_self, Nat.mod_eq_of_lt (channel_lt _)]
+
+theorem step_5 (g : RtGen) (len : Nat) (A X : Bytes) (hp : g.present.testBit 5 = true) :
+    Spec.valueStep (A ++ rtGenField g 5 ++ X) 16 (expVals g len 5) ⟨5, A.length⟩ = expVals g len (5 + 1) := by
+  unfold Spec.valueStep
+  simp only []
+  rw [u8_mid0 A _ X (by simp [rtGenField, leBytes_length])]
+  unfold expVals
+  simp only [onBit_succ_present g 5 _ hp]
+  simp [rtGenField, rd1, onBit_self]
+
+theorem step_10 (g : RtGen) (len : Nat) (A X : Bytes) (hp : g.present.testBit 10 = true) :
+    Spec.valueStep (A ++ rtGenField g 10 ++ X) 16 (expVals g len 10) ⟨10, A.length⟩ = expVals g len (10 + 1) := by
+  unfold Spec.valueStep
+  simp only []
+  rw [u8_mid0 A _ X (by simp [rtGenField, leBytes_length])]
+  unfold expVals
+  simp only [onBit_succ_present g 10 _ hp]
+  simp [rtGenField, rd1, onBit_self]
+
+theorem step_14 (g : RtGen) (len : Nat) (A X : Bytes) (hp : g.present.testBit 14 = true) :
+    Spec.valueStep (A ++ rtGenField g 14 ++ X) 16 (expVals g len 14) ⟨14, A.length⟩ = expVals g len (14 + 1) := by
+  unfold Spec.valueStep
+  simp only []
+  rw [u16_mid0 A _ X (by simp [rtGenField, leBytes_length])]
+  unfold expVals
+  simp only [onBit_succ_present g 14 _ hp]
+  simp [rtGenField, rd2, onBit_self]
+
+theorem step_15 (g : RtGen) (len : Nat) (A X : Bytes) (hp : g.present.testBit 15 = true) :
+    Spec.valueStep (A ++ rtGenField g 15 ++ X) 16 (expVals g len 15) ⟨15, A.length⟩ = expVals g len (15 + 1) := by
+  unfold Spec.valueStep
+  simp only []
+  rw [u16_mid0 A _ X (by simp [rtGenField, leBytes_length])]
+  unfold expVals
+  simp only [onBit_succ_present g 15 _ hp]
+  simp [rtGenField, rd2, onBit_self]
+
+theorem step_16 (g : RtGen) (len : Nat) (A X : Bytes) (hp : g.present.testBit 16 = true) :
+    Spec.valueStep (A ++ rtGenField g 16 ++ X) 16 (expVals g len 16) ⟨16, A.length⟩ = expVals g len (16 + 1) := by
+  unfold Spec.valueStep
+  simp only []
+  rw [u8_mid0 A _ X (by simp [rtGenField, leBytes_length])]
+  unfold expVals
+  simp only [onBit_succ_present g 16 _ hp]
+  simp [rtGenField, rd1, onBit_self]
+
+theorem step_17 (g : RtGen) (len : Nat) (A X : Bytes) (hp : g.present.testBit 17 = true) :
+    Spec.valueStep (A ++ rtGenField g 17 ++ X) 16 (expVals g len 17) ⟨17, A.length⟩ = expVals g len (17 + 1) := by
+  unfold Spec.valueStep
+  simp only []
+  rw [u8_mid0 A _ X (by simp [rtGenField, leBytes_length])]
+  unfold expVals
+  simp only [onBit_succ_present g 17 _ hp]
+  simp [rtGenField, rd1, onBit_self]
+
+theorem step_19 (g : RtGen) (len : Nat) (A X : Bytes) (hp : g.present.testBit 19 = true) :
+    Spec.valueStep (A ++ rtGenField g 19 ++ X) 16 (expVals g len 19) ⟨19, A.length⟩ = expVals g len (19 + 1) := by
+  unfold Spec.valueStep
+  simp only []
+  rw [u8_mid0 A _ X (by simp [rtGenField, leBytes_length]), u8_mid A _ X 1 (by simp [rtGenField, leBytes_length]), u8_mid A _ X 2 (by simp [rtGenField, leBytes_length])]
+  unfold expVals
+  simp only [onBit_succ_present g 19 _ hp]
+  simp [rtGenField, onBit_self]
+  simpa only [List.append_assoc] using rdMcs g.mcsKnown g.mcsFlags g.mcsMcs
+
+theorem step_22 (g : RtGen) (len : Nat) (A X : Bytes) (hp : g.present.testBit 22 = true) :
+    Spec.valueStep (A ++ rtGenField g 22 ++ X) 16 (expVals g len 22) ⟨22, A.length⟩ = expVals g len (22 + 1) := by
+  unfold Spec.valueStep
+  simp only []
+  rw [u64_mid0 A _ X (by simp [rtGenField, leBytes_length]), u16_mid A _ X 8 (by simp [rtGenField, leBytes_length]), u8_mid A _ X 10 (by simp [rtGenField, leBytes_length]), u8_mid A _ X 11 (by simp [rtGenField, leBytes_length])]
+  unfold expVals
+  simp only [onBit_succ_present g 22 _ hp]
+  simp [rtGenField, onBit_self]
+  simpa only [List.append_assoc, Nat.reducePow] using rdTs g.tsTimestamp g.tsAccuracy g.tsUnit g.tsFlags
+
+
+/-- what the walk needs to know about a carried field -/
+theorem carried_facts (g : RtGen) (k : Nat) (hk : k ∈ Spec.carried) (hp : g.present.testBit k = true) :
+    (k < Gen.rtapNBits ∧ rtAlign k ≠ 0) ∧ (rtGenField g k).length = rtSize k ∧
+      ∀ (len : Nat) (A X : Bytes),
+        Spec.valueStep (A ++ rtGenField g k ++ X) 16 (expVals g len k) ⟨k, A.length⟩ = expVals g len (k + 1) := by
+  obtain ⟨s1, s2, s3, s5, s10, s11, s14, s15, s16, s17, s19, s22⟩ := rtSize_handled
+  simp only [Spec.carried, List.mem_cons, List.mem_nil_iff, or_false] at hk
+  rcases hk with rfl | rfl | rfl | rfl | rfl | rfl | rfl | rfl | rfl | rfl | rfl
+  · exact ⟨by decide, by rw [s1]; simp [rtGenField, leBytes_length], fun len A X => step_1 g len A X hp⟩
+  · exact ⟨by decide, by rw [s2]; simp [rtGenField, leBytes_length], fun len A X => step_2 g len A X hp⟩
+  · exact ⟨by decide, by rw [s3]; simp [rtGenField, leBytes_length], fun len A X => step_3 g len A X hp⟩
+  · exact ⟨by decide, by rw [s5]; simp [rtGenField, leBytes_length], fun len A X => step_5 g len A X hp⟩
+  · exact ⟨by decide, by rw [s10]; simp [rtGenField, leBytes_length], fun len A X => step_10 g len A X hp⟩
+  · exact ⟨by decide, by rw [s14]; simp [rtGenField, leBytes_length], fun len A X => step_14 g len A X hp⟩
+  · exact ⟨by decide, by rw [s15]; simp [rtGenField, leBytes_length], fun len A X => step_15 g len A X hp⟩
+  · exact ⟨by decide, by rw [s16]; simp [rtGenField, leBytes_length], fun len A X => step_16 g len A X hp⟩
+  · exact ⟨by decide, by rw [s17]; simp [rtGenField, leBytes_length], fun len A X => step_17 g len A X hp⟩
+  · exact ⟨by decide, by rw [s19]; simp [rtGenField, leBytes_length], fun len A X => step_19 g len A X hp⟩
+  · exact ⟨by decide, by rw [s22]; simp [rtGenField, leBytes_length], fun len A X => step_22 g len A X hp⟩
+
+theorem encStep_absent (g : RtGen) (acc : Bytes) (b : Nat) (h : g.present.testBit b = false) :
+    encStep (C10.descOf g) acc b = acc := by
+  unfold encStep specStep C10.descOf
+  simp [h]
+
+theorem encStep_present (g : RtGen) (acc : Bytes) (b : Nat) (h : g.present.testBit b = true)
+    (hdef : b < Gen.rtapNBits ∧ rtAlign b ≠ 0) :
+    encStep (C10.descOf g) acc b =
+      acc ++ List.replicate (Spec.alignUp (8 + acc.length) (rtAlign b) - (8 + acc.length)) 0 ++ rtGenField g b := by
+  unfold encStep specStep C10.descOf
+  rw [if_pos hdef]
+  simp [h]
+
+/-- the Spec's walk over the encoder's output, with the values folded in: every selected field is found
+where the encoder put it and reads back its value -/
+theorem enc_walk (g : RtGen) (hc : C10.OnlyCarried g) (E H : Bytes) (hH : H.length = 8) :
+    ∀ (n b : Nat) (acc : Bytes) (fs : List Spec.RtField),
+      b + n = 29 → encBits (C10.descOf g) n b acc = E →
+      fs.foldl (Spec.valueStep (H ++ E) 16) (expVals g (8 + E.length) 0) = expVals g (8 + E.length) b →
+      (Spec.placeBits (8 + E.length) g.present n b ⟨8 + acc.length, .radiotap, 0, fs, false, false⟩).fields.foldl
+        (Spec.valueStep (H ++ E) 16) (expVals g (8 + E.length) 0) = expVals g (8 + E.length) 29 := by
+  intro n
+  induction n with
+  | zero =>
+    intro b acc fs hb _ hfs
+    have : b = 29 := by omega
+    subst this
+    exact hfs
+  | succ n ih =>
+    intro b acc fs hb henc hfs
+    rw [encBits] at henc
+    by_cases hp : g.present.testBit b = true
+    · obtain ⟨hdef, hlen, hstep⟩ := carried_facts g b (hc b hp) hp
+      have hpre := encBits_prefix (C10.descOf g) n (b + 1) (encStep (C10.descOf g) acc b)
+      rw [henc, encStep_present g acc b hp hdef] at hpre
+      rw [encStep_present g acc b hp hdef] at henc
+      obtain ⟨X, hX⟩ := hpre
+      have hge := alignUp_ge (8 + acc.length) (rtAlign b) (Nat.pos_of_ne_zero hdef.2)
+      have hEl : E.length = acc.length + (Spec.alignUp (8 + acc.length) (rtAlign b) - (8 + acc.length)) + rtSize b + X.length := by
+        rw [← hX]; simp only [List.length_append, List.length_replicate, hlen]
+      rw [placeBits_rt _ _ _ _ _ hp rfl rfl rfl]
+      simp only [Nat.zero_add]
+      rw [if_pos hdef, if_neg (by omega)]
+      have hoff : Spec.alignUp (8 + acc.length) (rtAlign b) + rtSize b =
+          8 + (acc ++ List.replicate (Spec.alignUp (8 + acc.length) (rtAlign b) - (8 + acc.length)) 0 ++ rtGenField g b).length := by
+        simp only [List.length_append, List.length_replicate, hlen]; omega
+      rw [hoff]
+      refine ih (b + 1) _ _ (by omega) henc ?_
+      rw [List.foldl_append, hfs, List.foldl_cons, List.foldl_nil]
+      have hA : (H ++ acc ++ List.replicate (Spec.alignUp (8 + acc.length) (rtAlign b) - (8 + acc.length)) 0).length =
+          Spec.alignUp (8 + acc.length) (rtAlign b) := by
+        simp only [List.length_append, List.length_replicate, hH]; omega
+      have hE : H ++ E = (H ++ acc ++ List.replicate (Spec.alignUp (8 + acc.length) (rtAlign b) - (8 + acc.length)) 0) ++
+          rtGenField g b ++ X := by
+        rw [← hX]; simp only [List.append_assoc]
+      have hs := hstep (8 + E.length)
+        (H ++ acc ++ List.replicate (Spec.alignUp (8 + acc.length) (rtAlign b) - (8 + acc.length)) 0) X
+      rw [hA] at hs
+      rw [hE]
+      exact hs
+    · have hp' : g.present.testBit b = false := by simpa using hp
+      rw [encStep_absent g acc b hp'] at henc
+      rw [placeBits_absent _ _ _ _ _ hp' rfl rfl]
+      exact ih (b + 1) acc fs (by omega) henc (by rw [expVals_absent g _ b hp']; exact hfs)
+
+
+theorem walkWord_fields (bs : Bytes) (itLen w : Nat) (st : Spec.Walk) :
+    (Spec.walkWord bs itLen w st).fields = (Spec.placeBits itLen w 29 0 st).fields := by
+  unfold Spec.walkWord
+  simp only []
+  repeat' split
+  all_goals rfl
+
+/-- `Spec.rtFields` on a well-formed header with a single present word -/
+theorem rtFields_single (bs : Bytes) (h8 : 8 ≤ bs.length) (hv : Spec.u8 bs 0 = 0) (hl8 : 8 ≤ Spec.u16 bs 2)
+    (hl : Spec.u16 bs 2 ≤ bs.length) (h255 : Spec.u16 bs 2 ≤ 255) (h31 : (Spec.u32 bs 4).testBit 31 = false) :
+    Spec.rtFields bs = some (Spec.u16 bs 2,
+      (Spec.placeBits (Spec.u16 bs 2) (Spec.u32 bs 4) 29 0 ⟨8, .radiotap, 0, [], false, false⟩).fields) := by
+  unfold Spec.rtFields
+  rw [if_neg (by omega)]
+  simp only []
+  rw [if_neg (by omega), Spec.presentWords, if_neg (by omega)]
+  simp only [h31, Bool.false_eq_true, if_false, List.foldl_cons, List.foldl_nil, walkWord_fields, List.length_cons,
+    List.length_nil]
+
+theorem present_lt (g : RtGen) (hc : C10.OnlyCarried g) : g.present < 2 ^ 23 := by
+  apply Nat.lt_pow_two_of_testBit
+  intro i hi
+  cases h : g.present.testBit i with
+  | false => rfl
+  | true =>
+    have := hc i h
+    simp only [Spec.carried, List.mem_cons, List.mem_nil_iff, or_false] at this
+    omega
+
+theorem u32_mid0 (A V X : Bytes) (h : 3 < V.length) : Spec.u32 (A ++ V ++ X) A.length = Spec.u32 V 0 := by
+  unfold Spec.u32
+  rw [u16_mid0 A V X (by omega), u16_mid A V X 2 (by omega)]
+
+theorem rd4 (x : Nat) : Spec.u32 (leBytes 4 x) 0 = x % 2 ^ 32 := by
+  simp [leBytes, Spec.u32, Spec.u16, Spec.u8]; omega
+
+/-- the size of the Spec encoder's body for a description of carried fields -/
+theorem encBody_le (g : RtGen) (ha : g.antennaCount ≤ 16) :
+    (encBits (C10.descOf g) 29 0 []).length ≤ 120 := by
+  rw [← encBits_table]
+  have hw := C10.table_worst g ha
+  generalize hT : Spec.rtTable = T at hw ⊢
+  have hT' : ∀ e ∈ T, e ∈ Spec.rtTable := by rw [hT]; exact fun e he => he
+  have hcap : ([] : Bytes).length + ((T.map (·.1)).map (rtWorst g)).sum ≤ rtStagingCap := by
+    rw [List.length_nil, Nat.zero_add]; exact hw
+  obtain ⟨out, h1, h2⟩ := rtGenLoop_ok g (T.map (·.1)) [] hcap
+  rw [rtGenLoop_spec g T hT' [] hcap] at h1
+  have hout := Outcome.ok.inj h1
+  have h120 : rtStagingCap = 120 := by decide
+  rw [List.length_nil, Nat.zero_add, ← hout] at h2
+  rw [h120] at hw
+  exact Nat.le_trans h2 hw
+
+
+/-- the values the parser must give back for the header generated from `g` (of total length `len`):
+every selected carried field has its supplied value reduced to the field's width, every other value is 0;
+band and channel number follow from the frequency -/
+def roundtripValues (g : RtGen) (len : Nat) : Spec.RtValues :=
+  { length := len,
+    flags := if g.present.testBit 1 then g.flags % 256 else 0,
+    rateRaw := if g.present.testBit 2 then g.rateRaw % 256 else 0,
+    chanFreq := if g.present.testBit 3 then g.chanFreq % 65536 else 0,
+    chanFlags := if g.present.testBit 3 then g.chanFlags % 65536 else 0,
+    chanBand := if g.present.testBit 3 then (Spec.channelOf (g.chanFreq % 65536)).1 else 0,
+    chanCenter := if g.present.testBit 3 then
+        (if (Spec.channelOf (g.chanFreq % 65536)).1 = 0 then 0 else (Spec.channelOf (g.chanFreq % 65536)).2)
+      else 0,
+    signal := if g.present.testBit 5 then g.signal % 256 else 0,
+    antennas := [],
+    txPower := if g.present.testBit 10 then g.txPower % 256 else 0,
+    rxFlags := if g.present.testBit 14 then g.rxFlags % 65536 else 0,
+    txFlags := if g.present.testBit 15 then g.txFlags % 65536 else 0,
+    rtsRetries := if g.present.testBit 16 then g.rtsRetries % 256 else 0,
+    dataRetries := if g.present.testBit 17 then g.dataRetries % 256 else 0,
+    mcs := if g.present.testBit 19 then (g.mcsKnown % 256, g.mcsFlags % 256, g.mcsMcs % 256) else (0, 0, 0),
+    ts := if g.present.testBit 22 then (g.tsTimestamp % 2 ^ 64, g.tsAccuracy % 65536, g.tsUnit % 256, g.tsFlags % 256)
+          else (0, 0, 0, 0) }
+
+theorem expVals_final (g : RtGen) (len : Nat) : (expVals g len 29).1 = roundtripValues g len := by
+  simp [expVals, onBit, roundtripValues]
+
+theorem rtEncode_shape (g : RtGen) :
+    Spec.rtEncode (C10.descOf g) =
+      ([0, 0] ++ leBytes 2 (8 + (encBits (C10.descOf g) 29 0 []).length) ++ leBytes 4 g.present) ++
+        encBits (C10.descOf g) 29 0 [] := by
+  rw [rtEncode_body, encBits_table]; rfl
+
+/-- **T2 / C10 (round trip)** decoding the header generated for a description of carried fields gives
+back the supplied values -/
+theorem C10_roundtrip (g : RtGen) (hc : C10.OnlyCarried g) (ha : g.antennaCount ≤ 16) :
+    ∃ info, parseRadiotapInfo (Spec.rtEncode (C10.descOf g)) = .ok info ∧
+      valuesOf info = roundtripValues g (Spec.rtEncode (C10.descOf g)).length := by
+  have hE := encBody_le g ha
+  have hp := present_lt g hc
+  rw [rtEncode_shape]
+  generalize hEdef : encBits (C10.descOf g) 29 0 [] = E at hE ⊢
+  generalize hH : [0, 0] ++ leBytes 2 (8 + E.length) ++ leBytes 4 g.present = H
+  have hHl : H.length = 8 := by rw [← hH]; simp [leBytes_length]
+  have hlen : (H ++ E).length = 8 + E.length := by rw [List.length_append, hHl]
+  have hu8 : Spec.u8 (H ++ E) 0 = 0 := by rw [← hH]; rfl
+  have hu16 : Spec.u16 (H ++ E) 2 = 8 + E.length := by
+    have := u16_mid0 [0, 0] (leBytes 2 (8 + E.length)) (leBytes 4 g.present ++ E) (by simp [leBytes_length])
+    rw [rd2] at this
+    rw [← hH]
+    simp only [List.append_assoc, List.length_cons, List.length_nil] at this ⊢
+    rw [this]; omega
+  have hu32 : Spec.u32 (H ++ E) 4 = g.present := by
+    have := u32_mid0 ([0, 0] ++ leBytes 2 (8 + E.length)) (leBytes 4 g.present) E (by simp [leBytes_length])
+    rw [rd4] at this
+    rw [← hH]
+    simp only [List.length_append, List.length_cons, List.length_nil, leBytes_length] at this
+    rw [this]; omega
+  have hrt := rtFields_single (H ++ E) (by omega) hu8 (by omega) (by omega) (by omega)
+    (by rw [hu32]; exact testBit_of_lt hp (by omega))
+  rw [hu16, hu32] at hrt
+  obtain ⟨info, h1, h2⟩ := C09_decode_full _ _ _ hrt
+  refine ⟨info, h1, ?_⟩
+  have hw := enc_walk g hc E H hHl 29 0 [] [] rfl hEdef rfl
+  rw [h2, maxAnt, hlen, ← expVals_final]
+  unfold Spec.rtValues
+  rw [← expVals_zero g, ← hw]
+  rfl
+
+
+/-- the decode-back clause stated in `Props/C10.lean` -/
+theorem C10_roundtrip_statement : C10.C10_roundtrip_statement := by
+  intro g hc ha
+  obtain ⟨info, h1, h2⟩ := C10_roundtrip g hc ha
+  exact ⟨_, info, C10.C10_valid g hc ha, h1, congrArg Spec.RtValues.length h2⟩
+
+/-- **C10 (round trip)**, field by field, for the bytes `createRadiotap` writes -/
+theorem C10_roundtrip_fields (g : RtGen) (hc : C10.OnlyCarried g) (ha : g.antennaCount ≤ 16) :
+    ∃ h info, createRadiotap g = .ok h ∧ parseRadiotapInfo h = .ok info ∧ info.length = h.length ∧
+      info.flags = (if g.present.testBit 1 then g.flags % 256 else 0) ∧
+      info.rateRaw = (if g.present.testBit 2 then g.rateRaw % 256 else 0) ∧
+      info.chanFreq = (if g.present.testBit 3 then g.chanFreq % 65536 else 0) ∧
+      info.chanFlags = (if g.present.testBit 3 then g.chanFlags % 65536 else 0) ∧
+      info.chanBand = (if g.present.testBit 3 then (Spec.channelOf (g.chanFreq % 65536)).1 else 0) ∧
+      info.chanCenter = (if g.present.testBit 3 then
+          (if (Spec.channelOf (g.chanFreq % 65536)).1 = 0 then 0 else (Spec.channelOf (g.chanFreq % 65536)).2)
+        else 0) ∧
+      info.signal = (if g.present.testBit 5 then g.signal % 256 else 0) ∧
+      info.antennas.take info.antennaCount = [] ∧
+      info.txPower = (if g.present.testBit 10 then g.txPower % 256 else 0) ∧
+      info.rxFlags = (if g.present.testBit 14 then g.rxFlags % 65536 else 0) ∧
+      info.txFlags = (if g.present.testBit 15 then g.txFlags % 65536 else 0) ∧
+      info.rtsRetries = (if g.present.testBit 16 then g.rtsRetries % 256 else 0) ∧
+      info.dataRetries = (if g.present.testBit 17 then g.dataRetries % 256 else 0) ∧
+      (info.mcsKnown, info.mcsFlags, info.mcsMcs) =
+        (if g.present.testBit 19 then (g.mcsKnown % 256, g.mcsFlags % 256, g.mcsMcs % 256) else (0, 0, 0)) ∧
+      (info.tsTimestamp, info.tsAccuracy, info.tsUnit, info.tsFlags) =
+        (if g.present.testBit 22 then (g.tsTimestamp % 2 ^ 64, g.tsAccuracy % 65536, g.tsUnit % 256, g.tsFlags % 256)
+         else (0, 0, 0, 0)) := by
+  obtain ⟨info, h1, h2⟩ := C10_roundtrip g hc ha
+  exact ⟨_, info, C10.C10_valid g hc ha, h1, congrArg Spec.RtValues.length h2,
+    congrArg Spec.RtValues.flags h2, congrArg Spec.RtValues.rateRaw h2, congrArg Spec.RtValues.chanFreq h2,
+    congrArg Spec.RtValues.chanFlags h2, congrArg Spec.RtValues.chanBand h2, congrArg Spec.RtValues.chanCenter h2,
+    congrArg Spec.RtValues.signal h2, congrArg Spec.RtValues.antennas h2, congrArg Spec.RtValues.txPower h2,
+    congrArg Spec.RtValues.rxFlags h2, congrArg Spec.RtValues.txFlags h2, congrArg Spec.RtValues.rtsRetries h2,
+    congrArg Spec.RtValues.dataRetries h2, congrArg Spec.RtValues.mcs h2, congrArg Spec.RtValues.ts h2⟩
+
+/-! non-vacuity of the round trip: FLAGS | TIMESTAMP -/
+example : ∃ h info, createRadiotap { present := 0x400002, flags := 0x10, tsTimestamp := 0x1122334455667788 } = .ok h ∧
+    parseRadiotapInfo h = .ok info ∧ info.flags = 0x10 ∧ info.tsTimestamp = 0x1122334455667788 := by
+  obtain ⟨h, info, h1, h2, -, hf, -, -, -, -, -, -, -, -, -, -, -, -, -, hts⟩ :=
+    C10_roundtrip_fields { present := 0x400002, flags := 0x10, tsTimestamp := 0x1122334455667788 }
+      (C10.onlyCarried_of_subset _ (by decide)) (by decide)
+  refine ⟨h, info, h1, h2, ?_, ?_⟩
+  · rw [hf]; decide
+  · have : info.tsTimestamp = _ := congrArg Prod.fst hts
+    rw [this]; decide
 
 end LWV.Props.C09Full
